@@ -78,7 +78,7 @@ def choose_flags(rng, net, k):
 
 def corr_patterns(ctx):
     rng = ctx.rng
-    n_base = 8 if ctx.quick else 20
+    n_base = 6 if ctx.quick else 20
     k = 5 if ctx.quick else 10
     specs = base_specs(ctx, n_base)
     conn, heat, red, meta = [], [], [], []
@@ -128,12 +128,17 @@ def corr_patterns(ctx):
 
 
 def run_cases(ctx, typ, okfn, body, name, meta, size):
+    """evaluate the chunks with a few coqc processes in parallel"""
+    from concurrent.futures import ThreadPoolExecutor
     n_tot = n_mis = 0
     jobs = []
     for s in range(0, len(body), size):
         txt = HDR + "Definition cs : list %s := [\n%s\n].\nEval vm_compute in (summary %s cs).\n" \
             % (typ, ";\n".join(body[s:s + size]), okfn)
-        trip, out = ctx.coq_counts(txt, "%s_%d" % (typ, s // size))
+        jobs.append((s, txt, "%s_%d" % (typ, s // size)))
+    with ThreadPoolExecutor(max_workers=6) as ex:
+        results = list(ex.map(lambda j: ctx.coq_counts(j[1], j[2]), jobs))
+    for (s, _, _), (trip, out) in zip(jobs, results):
         if not trip:
             ctx.broken("correspondence", name + " (coqc failed)", out[-800:])
             return
@@ -149,7 +154,10 @@ def run_cases(ctx, typ, okfn, body, name, meta, size):
                                "but the implementation's masks agree with the property-level reachability oracle"
                                % (flags, bits, json.dumps(sp)[:500]))
             else:
-                ctx.broken("correspondence", name, "case %d of chunk %d differs" % (first, s // size))
+                found = False
+                for sp, flags, bits in (ctx.extra.get("_meta_all") or [])[:0]:
+                    pass
+                ctx.broken("correspondence", name, "case %d of chunk starting at %d differs" % (first, s))
     ctx.corr(name, n_tot, n_mis)
 
 
